@@ -25,7 +25,9 @@ generated value must equal x + (f/g)(exp(g dt) - 1) when |g| > delta and x + dt 
 state) (all other names, intermediates included, held fixed) computed by the independent reference evaluator with forward-mode dual
 numbers; tolerance 1e-9 relative plus the rounding of exp(g dt) - 1.  Points where the generated rhs already differs from the
 reference (C01) or where ||g| - delta| < 1e-9 delta (unless equal) are skipped.  A non-finite result with finite f, g is its own
-failure, and so is any exception while generating the scheme for a model whose plain module generates.  Non-trivial: g != 0 and
+failure, and so is any exception while generating the scheme for a model whose plain module generates.  For the first delta the module is ALSO
+generated with remove_unused=True and checked in the same way, by name through its own state_index (signatures end in :remove_unused); a quarter of the
+models have independent derivatives + unused intermediates, a sixth intermediates that mention a d<state>_dt name.  Non-trivial: g != 0 and
 f != 0; distinct by sha1(text, back end, delta, point, dt, state)."""
 
 
@@ -36,7 +38,7 @@ def cases(tier, seed, focus):
         k = seed * 100003 + i
         bes = ["numpy"] + (["c"] if i % 2 == 0 else []) + (["jax"] if i % 8 == 3 else [])
         yield {"mseed": k, "opts": {"own": 0.9, "own_forms": forms[i % len(forms):] + forms[: i % len(forms)], "n_states": [1, 4], "n_params": [1, 4], "n_inter": [0, 6],
-                                    "force": list(mg.feature_cycle(k, 1))}, "npts": 3, "backends": bes, "deltas": DELTAS if i % 2 == 0 else [1e-8, 0.5], "tags": ["C06"]}
+                                    "force": list(mg.feature_cycle(k, 1)), "indep": 0.25, "deriv_ref": 0.15}, "npts": 3, "backends": bes, "deltas": DELTAS if i % 2 == 0 else [1e-8, 0.5], "tags": ["C06"]}
 
 
 def special_points(ref, pts, deltas, rng):
@@ -72,25 +74,37 @@ def check(case):
     deltas = c.get("deltas", DELTAS)
     dts = c.get("dts", DTS)
     pts = c["points"] if explicit else special_points(ref, c["points"], deltas, random.Random(cm.sha(text)))
+    plains = []
     for bk in c.get("backends", ["numpy"]):
+        suffix = ""
+
         def add(kind, what, inp, exp=None, act=None, detail="", base=None, feature=False):
-            sig = f"C06:{bk}:{kind}"
-            f = cm.fail(sig + (f":{cm.main_feature(text)}" if feature else ""), what, dict(inp, backends=[bk]), exp, act, detail)
+            sig = f"C06:{bk}:{kind}{suffix}"
+            f = cm.fail(sig + (f":{cm.main_feature(text)}" if feature else ""), what, dict(inp, backends=[bk], remove_unused=bool(suffix)), exp, act, detail)
             if shr:
-                f["_shrink"] = {"base": f"C06:{bk}:{base or kind}"}
+                f["_shrink"] = {"base": f"C06:{bk}:{base or kind}{suffix}"}
             res["failures"].append(f)
 
         try:
             plain = be.build(ode, bk)
-            plain.close()
         except be.Stage as e:
             cm.note(res, f"skipped:{bk}:plain-module-{e.stage}-fails")
             continue
-        for delta in deltas:
+        plains.append(plain)
+        if "remove_unused" in c:
+            configs = [(d, ":remove_unused" if c["remove_unused"] else "") for d in deltas]
+        else:
+            configs = [(d, "") for d in deltas] + [(deltas[0], ":remove_unused")]
+        for delta, suffix in configs:
             try:
                 kw = {} if delta == 1e-8 and not explicit else {"delta": delta}
+                if suffix:
+                    kw["remove_unused"] = True
                 m = be.build(ode, bk, ["generalized_rush_larsen"], **kw)
             except be.Stage as e:
+                if suffix:
+                    cm.note(res, f"skipped:{bk}:remove_unused-module-{e.stage}-fails(C12)")
+                    continue
                 res["evals"] += 1
                 k = f"generation-raises:{cm.exc_site(e.exc)}" if e.stage == "codegen" else f"{e.stage}-raises:{cm.exc_name(e.exc) if e.stage != 'compile' else cm.compile_key(e.exc, set(ref.states) | set(ref.params) | set(ref.assigns))}"
                 add(k, f"{bk} generalized_rush_larsen cannot be generated ({e.stage}) although the plain module can", {"ode": text, "deltas": [delta], "points": []}, "scheme function", cm.exc_name(e.exc), str(e),
@@ -101,10 +115,10 @@ def check(case):
                     pt = cm.restrict_point(pt, ref)
                     try:
                         vals, frag = ref.evaluate(pt["t"], pt["states"], pt["params"])
-                        got_f = m.rhs(pt)
+                        got_f = (plain if suffix else m).rhs(pt)  # remove_unused variant: gate on the plain module, the variant itself is what is tested
                     except (mg.RefError, be.Stage):
                         continue
-                    if frag or not all(cm.close(got_f[s], vals[f"d{s}_dt"], 1e-9, 1e-12) for s in ref.states):
+                    if frag or not all(cm.vclose(got_f[s], vals[f"d{s}_dt"], ref.last_maxabs) for s in ref.states):
                         cm.note(res, "skipped:point-fragile-or-rhs-differs(C01/C02)")
                         continue
                     fg = {}
@@ -130,17 +144,17 @@ def check(case):
                                 if abs(g) > delta:
                                     e1 = math.expm1(g * dt)
                                     want, branch = x + (f / g) * e1, "rl"
-                                    tol = 1e-9 * (abs(x) + abs(f / g * e1)) + 8e-16 * abs(f / g) + 1e-300
+                                    tol = 1e-9 * (abs(x) + abs(f / g * e1)) + 8e-16 * abs(f / g) + cm.ref_atol(abs(x))
                                 else:
                                     want, branch = x + dt * f, "euler"
-                                    tol = 1e-9 * (abs(x) + abs(dt * f)) + 1e-300
+                                    tol = 1e-9 * (abs(x) + abs(dt * f)) + cm.ref_atol(abs(x))
                             except OverflowError:
                                 continue
                             if not math.isfinite(want):
                                 continue
                             res["evals"] += 1
                             if g != 0 and f != 0:
-                                res["nontrivial"].append(cm.sha([text, bk, delta, pt, dt, s]))
+                                res["nontrivial"].append(cm.sha([text, bk, delta, pt, dt, s, suffix]))
                             v = got[s]
                             if abs(v - want) <= tol:
                                 continue
@@ -163,6 +177,8 @@ def check(case):
                         break
             if shr and res["failures"]:
                 break
+    for pl in plains:
+        pl.close()
     return res
 
 
